@@ -74,6 +74,43 @@ theorem runLines_cons (F : LoopFacts) (c : Config σ) (l : Bytes) (ls : List Byt
     cases h : (runLine c failed s l).out <;> simp [h]
     cases c.continueOnError <;> simp
 
+/-! ### facts-free: lines that all end ok give `pass`, whatever the loop's other branches do -/
+
+/-- No regenerated fact is involved: with `failed = false` an `ok` line only ever continues, a '#'
+line only ever continues, and the end of the script is `pass`. (Used by C16, which must not depend
+on the shape of the failure handling.) -/
+theorem runLines_okFold_pass (c : Config σ) (ls : List Bytes) :
+    ∀ (n : Nat) (s s' : σ), okFold c s ls = some s' → (runLines c ls n false s).verdict = .pass := by
+  induction ls with
+  | nil => intro n s s' _; simp [runLines, endVerdict]
+  | cons l ls ih =>
+    intro n s s' h
+    simp only [okFold] at h
+    split at h
+    · rename_i hok
+      unfold runLines
+      by_cases hc : isComment l = true
+      · simp only [hc, if_true]
+        simp only [lineOut, hc, if_true] at h
+        exact ih _ _ _ h
+      · have hc' : isComment l = false := by simpa using hc
+        simp only [lineOut, hc', Bool.false_eq_true, if_false] at hok h
+        simp only [hc', Bool.false_eq_true, if_false, Bool.and_false, hok]
+        exact ih _ _ _ h
+    · simp at h
+
+/-- `lookup` finds a command in one of the two tables, whatever their order. -/
+theorem lookup_cases (c : Config σ) (name : Bytes) (f : Cmd σ) (h : lookup c name = some f) :
+    c.builtin name = some f ∨ c.custom name = some f := by
+  unfold lookup at h
+  split at h
+  · split at h
+    · rename_i g hg; simp at h; subst h; exact Or.inl hg
+    · exact Or.inr h
+  · split at h
+    · rename_i g hg; simp at h; subst h; exact Or.inr hg
+    · exact Or.inl h
+
 /-! ### once a line has failed the verdict is never pass -/
 
 theorem runLines_failed_not_pass (F : LoopFacts) (c : Config σ) (ls : List Bytes) :
